@@ -188,6 +188,52 @@ def c05_enumeration_4(l0: int, l1: int, l2: int, l3: int, m: bool, misc: int, lo
     return _check_enum([l0, l1, l2, l3], m, misc, lo, hi, diamond)
 
 
+def _check_enum_cpop(lens, cpop, starts_m, misc, lo, hi):
+    """chain with C-terminally pop-collapsed nodes (their end is not a cleavage site, so they use up no missed
+    cleavage and a series never ends at one); declarative oracle, each conjunct monotone in its limit"""
+    for n in lens:
+        if n < 1:
+            return SKIP
+    nodes = [_Node(lens[0], starts_m, cpop=cpop[0])] + [_Node(n, cpop=c) for n, c in zip(lens[1:], cpop[1:])]
+    for a, b in zip(nodes, nodes[1:]):
+        a.out_nodes.append(b)
+    p = CleavageParams(enzyme='trypsin', miscleavage=misc, min_length=lo, max_length=hi,
+                       max_variants_per_node=-1, additional_variants_per_misc=-1)
+    vpd = VariantPeptideDict('T1', cleavage_params=p)
+    res = vpd.find_miscleaved_nodes(node=nodes[0], orfs=['orf'], cleavage_params=p, tx_id='T1',
+                                    gene_id='G1', leading_node=nodes[0], subgraphs=None,
+                                    is_circ_rna=False, backsplicing_only=False)
+    got = sorted(len(series.nodes) - 1 for series in res.data)
+    want = []
+    total = 0
+    sites = 0
+    for k in range(len(lens)):
+        total += lens[k]
+        if cpop[k]:
+            continue
+        sites += 1
+        if sites - 1 <= misc and total >= lo and not _too_long(total, starts_m, hi):
+            want.append(k)
+    if got != want:
+        return -1
+    return OK
+
+
+@cond('C05', bounds='chain of 3 nodes each symbolically C-terminally pop-collapsed or not, UNBOUNDED node lengths >= 1, '
+      'leading M symbolic, miscleavage 0..2, UNBOUNDED min/max length', encodes=ENC_B,
+      stubs=['graph nodes -> duck-typed stand-ins (length, leading M, out_nodes, cpop_collapsed; no variants, no Sec)'],
+      codes={-1: 'series reported differ from: every prefix ending at a cleavage site (non-collapsed node) with <= '
+                 'miscleavage earlier sites and total length within [min_length, max_length (+1 for a leading M)]'},
+      timeout=400)
+def c05_enumeration_cpop3(l0: int, l1: int, l2: int, c0: bool, c1: bool, c2: bool, m: bool, misc: int, lo: int,
+                          hi: int) -> int:
+    """
+    pre: 0 <= misc <= 2
+    post: _ >= 0
+    """
+    return _check_enum_cpop([l0, l1, l2], [c0, c1, c2], m, misc, lo, hi)
+
+
 @zcond('C05', bounds='reference model of the miscleavage enumeration on chains of <= 6 nodes: for ALL integer node '
        'lengths >= 1 and ALL limit pairs (miscleavage <= miscleavage2, min_length >= min_length2, max_length <= '
        'max_length2) every reported chain stays reported (QF_LIA, unbounded integers)',
